@@ -441,3 +441,33 @@ contract(
     notes="TumorBoost: every site gets the formula of its own branch (np.nonzero / take / scatter store modelled as: the True "
           "positions in order, the elements at listed positions, values[r] written to the r-th True position); real arithmetic",
 )
+
+
+# ----------------------------------------------------------------------------- deductive: the methods users call
+_VARR = ObjT("VariantArray", data=TabT(index="range", chromosome=CHROM, start=Int, end=Int, alt_freq=Real, n_alt_freq=Real), meta=DictT())
+_BOOST = ("ite(self.data.alt_freq[k] < self.data.n_alt_freq[k], 0.5 * self.data.alt_freq[k] / self.data.n_alt_freq[k], "
+          "1 - 0.5 * (1 - self.data.alt_freq[k]) / (1 - self.data.n_alt_freq[k]))")
+_FREQ_REQ = ("forall(0, len(self.data), lambda k: 0 <= self.data.alt_freq[k] and self.data.alt_freq[k] <= 1 and 0 <= self.data.n_alt_freq[k] and "
+             "self.data.n_alt_freq[k] <= 1 and not (self.data.alt_freq[k] == 1 and self.data.n_alt_freq[k] == 1))")
+contract(
+    "cnvlib/vary.py::VariantArray.tumor_boost",
+    params=dict(self=_VARR), returns=VecT(NReal, kind="series"),
+    requires=[_FREQ_REQ],
+    ensures=[("one_value_per_record", "len(result) == len(self.data)"),
+             ("each_record_boosted_by_its_own_normal", "forall(0, len(result), lambda k: not isnull(result[k]) and val(result[k]) == BOOST)".replace("BOOST", _BOOST))],
+    props=("C18",), domain="skip",
+    canaries=[("normal_and_tumour_swapped", 'self["alt_freq"].values, self["n_alt_freq"].values', 'self["n_alt_freq"].values, self["alt_freq"].values')],
+)
+
+contract(
+    "cnvlib/vary.py::VariantArray.mirrored_baf",
+    params=dict(self=_VARR, above_half=Lit(None, True, False), tumor_boost=Lit(False)),
+    returns=VecT(Real, kind="series"),
+    requires=[],
+    ensures=[("one_value_per_record", "len(result) == len(self.data)"),
+             ("each_record_mirrored", "forall(0, len(result), lambda k: result[k] == ite("
+                                      "above_half is True or (above_half is None and median_of(self.data.alt_freq) > 0.5), "
+                                      "0.5 + abs(self.data.alt_freq[k] - 0.5), 0.5 - abs(self.data.alt_freq[k] - 0.5)))")],
+    props=("C18",), domain="skip",
+    canaries=[("normal_frequencies_mirrored", 'alt_freq = self["alt_freq"]', 'alt_freq = self["n_alt_freq"]')],
+)
